@@ -313,3 +313,40 @@ Fixpoint hyps_from (c : qcfg) (s : qstate) (ls : list label) : bool :=
 
 Definition no_findings (c : qcfg) (ls : list label) : bool :=
   (2 <=? maxram c) && (maxram c <? W64) && hyps_from c q_init ls.
+
+(* ---- the same without the scheduling hypothesis -------------------------------------------------
+   A pop that finds the ring empty delivers nothing and changes nothing.  [effective] erases those
+   pops from the label list (and [effective_outs] their outputs): the statement "the run IS the
+   unlimited list on the effective label list" says order, exactly-once delivery and the counter
+   without assuming anything about when loader turns happen relative to pops. *)
+Fixpoint effective (ls : list label) (os : list out) : list label :=
+  match ls, os with
+  | lab :: t, o :: ot =>
+    match lab, o with
+    | Pop, OPop None => effective t ot
+    | _, _ => lab :: effective t ot
+    end
+  | _, _ => []
+  end.
+
+Fixpoint effective_outs (ls : list label) (os : list out) : list out :=
+  match ls, os with
+  | lab :: t, o :: ot =>
+    match lab, o with
+    | Pop, OPop None => effective_outs t ot
+    | _, _ => o :: effective_outs t ot
+    end
+  | _, _ => []
+  end.
+
+Definition hyp_step_safety (c : qcfg) (s : qstate) (lab : label) : bool :=
+  match lab with Pop => true | _ => hyp_step c s lab end.
+
+Fixpoint hyps_safety_from (c : qcfg) (s : qstate) (ls : list label) : bool :=
+  match ls with
+  | [] => true
+  | lab :: t => hyp_step_safety c s lab && hyps_safety_from c (fst (q_step c s lab)) t
+  end.
+
+Definition no_findings_safety (c : qcfg) (ls : list label) : bool :=
+  (2 <=? maxram c) && (maxram c <? W64) && hyps_safety_from c q_init ls.
